@@ -66,6 +66,9 @@ func NewPeriodicalExecutor(interval time.Duration, container TaskContainer) *Per
 // Add adds tasks into pe.
 func (pe *PeriodicalExecutor) Add(task any) {
 	if vals, ok := pe.addAndCheck(task); ok {
+		// register the batch before handing it over: the confirmation below might be
+		// the one meant for another producer, and Wait must cover this batch anyway.
+		pe.enterExecution()
 		pe.commander <- vals
 		<-pe.confirmChan
 	}
@@ -130,7 +133,6 @@ func (pe *PeriodicalExecutor) backgroundFlush() {
 			case vals := <-pe.commander:
 				commanded = true
 				atomic.AddInt32(&pe.inflight, -1)
-				pe.enterExecution()
 				pe.confirmChan <- lang.Placeholder
 				pe.executeTasks(vals)
 				last = timex.Now()
